@@ -118,7 +118,7 @@ Section Refinement.
     match a_hi a with
     | None =>
         r_started st = false /\ r_last st = 0 /\ r_last_report st = 0 /\ r_cycles st = 0 /\
-        r_total st = 0 /\ a_cum a = 0 /\ (forall q, r_bits st q = false)
+        r_total st = Z.min 16777215 (a_cum a) /\ 0 <= a_cum a /\ (forall q, r_bits st q = false)
     | Some H =>
         r_started st = true /\
         r_last st = H mod 65536 /\
@@ -132,7 +132,12 @@ Section Refinement.
     end.
 
   Lemma rel_init : rel (r_init J j0) (a_init J j0).
-  Proof. unfold rel; simpl. repeat split; auto. Qed.
+  Proof. unfold rel; simpl. repeat split; auto; lia. Qed.
+
+  (* a fresh stream whose cumulative counter was preset (hook PresetTotalLost) *)
+  Lemma rel_preset t0 : 0 <= t0 <= 16777215 ->
+    rel (mkR false (fun _ => false) 0 0 0 0 0 j0 0 None t0) (mkA None [] 0 t0 0 0 j0 0 None).
+  Proof. intros. unfold rel; simpl. repeat split; auto; lia. Qed.
 
   Lemma step_rtp st a now v ts :
     rel st a -> scope_okb J a (ARtp now v ts) = true ->
@@ -179,7 +184,7 @@ Section Refinement.
       rewrite Rs. cbn [negb].
       cbn [a_hi a_jit a_lsr a_lsr_time a_prev a_ts a_time a_cum a_recv
            r_started r_bits r_cycles r_last r_last_report r_last_rtp r_last_time r_jit r_lsr r_lsr_time r_total].
-      rewrite Rc, Rt, Rcum.
+      rewrite Rc.
       repeat split; auto; try (unfold sub16; lia).
       + intros x [Hx|[]]. lia.
       + intros e He. rewrite memb_cons. unfold set_bit.
@@ -244,9 +249,16 @@ Section Refinement.
           unfold u8. lia. }
         rewrite Hfr. unfold u32. reflexivity.
     - destruct R as (Rs & Rl & Rp & Rc & Rt & Rcum & Rb).
-      rewrite Rl, Rp, Rc, Rt. cbn [fst snd].
+      rewrite Rl, Rp, Rc. cbn [fst snd].
+      assert (Htl : (if 16777215 <? add32 (r_total st) 0 then 16777215 else add32 (r_total st) 0)
+                    = Z.min 16777215 (a_cum a)).
+      { rewrite Rt. unfold add32. destruct (16777215 <? _) eqn:?; lia. }
+      change (sub16 0 0) with 0. change (0 =? 0) with true. cbv iota. rewrite Htl.
       split.
-      + unfold rel. rewrite EH. simpl. repeat split; auto.
+      + unfold rel. rewrite EH.
+        cbn [a_jit a_lsr a_lsr_time a_cum
+             r_started r_bits r_cycles r_last r_last_report r_last_rtp r_last_time r_jit r_lsr r_lsr_time r_total].
+        repeat split; auto; lia.
       + rewrite Hj, Hl, Hlt. reflexivity.
   Qed.
 
